@@ -207,8 +207,19 @@ func ExecPtyStalled(hr string, args []string, o ExecOpts, stall time.Duration) (
 // Exec runs the real binary once.
 func Exec(hr string, args []string, o ExecOpts) Result {
 	if o.Timeout == 0 {
+		// the default limit is a watchdog, not an oracle: a run that exceeds it on a loaded machine is repeated once
+		// with four times the limit before it is reported as timed out (callers that pass their own limit decide
+		// themselves what an expiry means)
 		o.Timeout = 30 * time.Second
+		if r := execOnce(hr, args, o); !r.TimedOut {
+			return r
+		}
+		o.Timeout = 120 * time.Second
 	}
+	return execOnce(hr, args, o)
+}
+
+func execOnce(hr string, args []string, o ExecOpts) Result {
 	ctx, cancel := context.WithTimeout(context.Background(), o.Timeout)
 	defer cancel()
 	argv := append(append([]string{}, o.Prefix...), hr)
